@@ -152,8 +152,10 @@ func captureLoopAs(c *engine.Ctx, id string) {
 				bad = "for a path that exists in the configuration the captured value is " + c.Render(rhs) + ", not the configuration's value"
 			case hasNot && !(strings.Contains(rhs, "Deleted:true") && strings.Contains(rhs, "Path:key("+chg+")")):
 				bad = "for a path that does not exist in the configuration the captured value is not a tombstone for that path: " + c.Render(rhs)
-			case hasNot && strings.Contains(rhs, "Index:"):
-				bad = "the tombstone captured for a path the change creates carries an index (" + c.Render(rhs) + "): the store rewrites an entry only when the index differs from the stored one, and the created value carries the change's own index — the rollback of a created path would be skipped"
+				// (until repair ad644df a tombstone that carried the change's own index was a defect — the store
+				// rewrote an entry only when the index differed; the store now compares the tombstone flag too,
+				// so the index of a placeholder is no longer anybody's necessary condition and the clause was
+				// withdrawn: seeds C03-c, C03-f, C05-e are harmless on today's tree)
 			}
 			if bad == "" {
 				// the captured map is what is stored on the VALIDATED path
